@@ -45,9 +45,15 @@ class C09(Oracle):
         R = self.R
         pm = R.S["prio"] or {}
         for nd in R.nodes():
-            for i in R.inds(nd):
-                if i.priority_class != pm.get(i.customer_class, 0):
-                    self.fail("priority-ne-class-priority", "ind %s class %s has priority %s, mapping says %s" % (i.id_number, i.customer_class, i.priority_class, pm.get(i.customer_class, 0)))
+            for k, lst in enumerate(nd.individuals):
+                for i in lst:
+                    want = pm.get(i.customer_class, 0)
+                    if i.priority_class != want:
+                        self.fail("priority-ne-class-priority", "ind %s class %s has priority %s, mapping says %s" % (i.id_number, i.customer_class, i.priority_class, want))
+                    # a blocked customer whose class changed at the end of its service stays in the line it was served from
+                    if k != want and not i.is_blocked:
+                        self.fail("queued-in-wrong-priority-line", "ind %s of class %s (priority %s) stands in priority line %s of node %s" % (
+                            i.id_number, i.customer_class, want, k, nd.id_number))
         if R.ev_type != "end_service":
             return
         j = R.ev_nid
